@@ -192,3 +192,15 @@ check(
     'Seeds and hash seeds are finite sets rotated by VERIF_SEED; GymEnvironment.seed() out of scope.',
     'DESIGN.md 3/C02',
 )
+check(
+    'C04',
+    'exhaustive enumeration of operation sequences (reset / step / reads, inner and outer) replayed against a functionally driven twin with the same seed',
+    'All sequences of 3-5 (thorough 4-6) operations over {reset, 3 steps, read observation, read state, read outer '
+    'observation, read outer state}, including reads and steps before any reset, on shipped configurations and on a '
+    'synthetic configuration whose stepping and observing both consume randomness: after every operation the stateful '
+    'state, reward, flag, observation, numeric representations and the generator bit state equal those of a twin '
+    'driven only through functional_reset/step/observation (observation computed exactly once per state); repeated '
+    'reads consume no randomness; operations before the first reset raise RuntimeError.',
+    'Three actions per configuration, finite seed set (rotated by VERIF_SEED).',
+    'DESIGN.md 3/C04',
+)
